@@ -91,6 +91,18 @@ func c03(c *ctx) {
 	}
 	reasons["len123"] = l123
 	rnames := []string{"empty", "ascii", "utf8", "len123", "bad_cont", "bad_trunc", "bad_surr", "bad_long", "bad_big"}
+	// every UTF-8 sample string (valid: boundaries, noncharacters, U+FFFD, BOM, NUL; invalid: overlongs,
+	// surrogates, truncated, ...) as a reason of codes of each class
+	for _, smp := range utf8Samples {
+		for _, code := range []int{1000, 1002, 1011, 3000, 4999, 1005, 999} {
+			key := fmt.Sprintf("code/%d/sample/%s", code, smp.name)
+			if vh.Only(key) && len(smp.b) <= 123 {
+				err := ws.CheckCloseFrameData(ws.StatusCode(code), string(smp.b))
+				emit(map[string]interface{}{"k": "code", "key": key, "code": code, "reason": vh.Ints(smp.b), "err": ruleName(err)})
+				shapes.Add("code/%d/sample/%s", code, smp.name)
+			}
+		}
+	}
 	for code := 0; code < 65536; code++ {
 		key := fmt.Sprintf("code/%d/empty", code)
 		if vh.Only(key) {
